@@ -54,10 +54,10 @@ def _same_objects(got: List[Any], want: List[Any]) -> bool:
     return len(got) == len(want) and all(g is w for g, w in zip(got, want))
 
 
-def check(model: str, cls_name: str, pool: Pool, depth: int, list_len: int) -> str:
+def check(model: str, cls_name: str, pool: Pool, depth: int, list_len: int, focus: Any = None) -> str:
     sdk = c08.sdk_of(model)
     cls = sdk.symbol_table.must_find_class(cls_name)
-    instance, _ = sdk.build(cls, pool, depth, list_len)
+    instance, _ = sdk.build(cls, pool, depth, list_len, symbolic_props=focus)
     pool.finish()
     assume(not pool.exhausted)
     types = sdk.types
@@ -177,9 +177,18 @@ def make_harness(params: Dict[str, Any]):
             assume(len(s) == 0)
         pool = Pool([s0, s1, s2, s3, s4, s5] * 4, [i0, i1, i2, i3, i4, i5, i6, i7], [b0, b1, b2, b3, b4, b5, b6, b7], 0)
         pool.structure_only = True
-        return check(model, params["name"], pool, params["depth"], params["list_len"])
+        return check(model, params["name"], pool, params["depth"], params["list_len"], params.get("focus"))
 
     return harness
+
+
+def _shaped_properties(model: str, name: str) -> List[str]:
+    """Properties whose value has a shape (optional and / or list)."""
+    from aas_core_codegen import intermediate
+    st = c08._TABLES[model]
+    cls = st.must_find_class(name)
+    return [p.name for p in cls.properties
+            if isinstance(p.type_annotation, (intermediate.OptionalTypeAnnotation, intermediate.ListTypeAnnotation))]
 
 
 def shards(tier: str) -> List[Dict[str, Any]]:
@@ -192,12 +201,19 @@ def shards(tier: str) -> List[Dict[str, Any]]:
             if kind != "class" or name in seen:
                 continue
             seen.add(name)
-            variants = [(2, False)]
+            variants = [(2, False, None)]
             if c08._has_polymorphic_list(model, name, None):
-                variants = [(1, False), (2, True)]
-            for ll, exploratory in variants:
-                out.append({"name": f"{model}:{name}" + (f":lists<={ll}" if len(variants) > 1 else ""),
-                            "params": {"model": model, "name": name, "depth": 2 if tier == "quick" else 3, "list_len": ll},
+                variants = [(1, False, None), (2, True, None)]
+            shaped = _shaped_properties(model, name)
+            if len(shaped) > 4:
+                # many optional / list properties multiply the shapes: one property at a time is claimed exhaustively
+                # (the others stay at their default), all together are explored under a budget
+                variants = [(2, False, [prop]) for prop in shaped] + [(1, True, None)]
+            for ll, exploratory, focus in variants:
+                out.append({"name": f"{model}:{name}" + (f":focus={focus[0]}" if focus else "") +
+                                    (f":lists<={ll}" if len(variants) > 1 and not focus else ""),
+                            "params": {"model": model, "name": name, "depth": 2 if tier == "quick" else 3, "list_len": ll,
+                                       "focus": focus},
                             "budget_s": (60 if exploratory else 200) if tier == "quick" else 1500,
                             **({"exploratory": True} if exploratory else {}), "per_path_timeout": 60})
     return out
